@@ -6,6 +6,7 @@ import (
 	"go/token"
 	"go/types"
 	"golang.org/x/tools/go/packages"
+	"golang.org/x/tools/go/types/typeutil"
 	"strings"
 )
 
@@ -325,6 +326,7 @@ func checkC15(c *Check) {
 	}
 
 	checkGenericLookupOrder(c)
+	checkInstantiationSymbols(c, c.L)
 	checkStructTypesDeclaredBeforeUse(c, c.Rule("R15.8", "a Kombination private to the generic function's module is declared on demand where the function is instantiated", 1))
 
 	// ---------------- R15.6 ----------------
@@ -574,5 +576,80 @@ func checkGenericLookupOrder(c *Check) {
 			}
 			r.Decide(got == want, key, fi.Decl.Pos(), "answers "+want, "answers "+got+" where "+want+" is required: a name in a generic body is bound at the call site instead of the declaration site, so the instantiation differs from the specialisation written out at the declaration (and from the same call made inside the declaring module)")
 		}
+	}
+}
+
+// R15.9: the symbol of an instantiation names its type arguments themselves. mangledNameDecl appends the String() of every
+// parameter type to the name of a generic instantiation; code generation looks instantiations up by that name. If the type is
+// first sent through a function of ddptypes that maps two different types to one (TrueUnderlying strips type definitions),
+// f<Zahl> and f<Hausnummer> share a symbol and the second call runs the first one's body. Decided by evaluating whatever
+// ddptypes function the String() receiver passes through on Zahl and on a definition over Zahl: the results must differ.
+func checkInstantiationSymbols(c *Check, L *Loaded) {
+	r := c.Rule("R15.9", "the symbol of a generic instantiation distinguishes all distinct type arguments", 1)
+	fi := L.Fn("src/compiler.(*compiler).mangledNameDecl")
+	if fi == nil {
+		r.Und("compiler.(*compiler).mangledNameDecl", token.NoPos, "function not found")
+		return
+	}
+	info := fi.Pkg.TypesInfo
+	isDDPType := func(t types.Type) bool {
+		n, ok := t.(*types.Named)
+		return ok && nameIs(n.Obj(), "Type") && n.Obj().Pkg() != nil && nameIs(n.Obj().Pkg(), "ddptypes")
+	}
+	zahl := &DT{Kind: "ZAHL"}
+	def := &DT{Kind: "TYPEDEF", Name: "Hausnummer", Base: zahl}
+	n := 0
+	ast.Inspect(fi.Decl.Body, func(x ast.Node) bool {
+		call, ok := x.(*ast.CallExpr)
+		if !ok || len(call.Args) != 0 {
+			return true
+		}
+		sel, ok := call.Fun.(*ast.SelectorExpr)
+		if !ok || sel.Sel.Name != "String" || !isDDPType(info.TypeOf(sel.X)) {
+			return true
+		}
+		n++
+		key := fmt.Sprintf("compiler.(*compiler).mangledNameDecl|type named in the symbol #%d", n)
+		recv := ast.Unparen(throughLocals(info, fi.Decl.Body, sel.X))
+		inner, isCall := recv.(*ast.CallExpr)
+		if !isCall {
+			r.OK(key, call.Pos(), "the type itself is named")
+			return true
+		}
+		callee, _ := typeutil.Callee(info, inner).(*types.Func)
+		g := L.Funcs[callee]
+		if callee == nil || g == nil || callee.Pkg() == nil || !nameIs(callee.Pkg(), "ddptypes") {
+			r.Und(key, call.Pos(), "the named type is the result of "+L.Src(inner.Fun)+", which is not a function of ddptypes the evaluator can judge")
+			return true
+		}
+		in := NewInterp(L)
+		installDDPTypesModels(in)
+		eval := func(d *DT) (string, bool) {
+			var v Val
+			if model := in.Models["ddptypes."+canonName(callee)]; model != nil {
+				v, _ = model(in, g.Pkg, nil, nil, []Val{TypeV{d}})
+			} else if runs, _ := in.RunAll(4, func() { v = in.CallFunc(g, nil, []Val{TypeV{d}}) }); runs != 1 {
+				return "", false
+			}
+			tv, ok := v.(TypeV)
+			if !ok || tv.T == nil {
+				return "", false
+			}
+			return tv.T.String(), true
+		}
+		a, okA := eval(zahl)
+		b, okB := eval(def)
+		switch {
+		case !okA || !okB:
+			r.Und(key, call.Pos(), "ddptypes."+callee.Name()+" could not be evaluated on the representatives")
+		case a == b:
+			r.Bad(key, call.Pos(), "the symbol names ddptypes."+callee.Name()+"(type): Zahl and a definition over Zahl both become '"+a+"', so the instantiations f<Zahl> and f<Hausnummer> share one symbol and a call of the second runs the body of the first")
+		default:
+			r.OK(key, call.Pos(), "ddptypes."+callee.Name()+" keeps Zahl and a definition over Zahl apart")
+		}
+		return true
+	})
+	if n == 0 {
+		r.Und("compiler.(*compiler).mangledNameDecl|types named in the symbol", fi.Decl.Pos(), "no type is named in the symbol of an instantiation")
 	}
 }
